@@ -3,7 +3,7 @@
    Per scenario item: kind, case (what it was written to refer to), unamb, out (must be left out),
    extracted (exactly one citation of the expected class was found in its sentence), group (index of
    the resource it is listed under, 0 = none). *)
-EXTENDS Integers, Sequences, FiniteSets, Json, IOUtils, TLC
+EXTENDS Integers, Sequences, FiniteSets, Json, IOUtils, TLC, Hits
 Traces == JsonDeserialize(IOEnv.TRACE_FILE)
 NT == Len(Traces)
 VARIABLES tid, bucket
@@ -13,7 +13,9 @@ AllExtracted(tr) == \A k \in DOMAIN tr.items : tr.items[k].extracted
 FirstFull(tr, c) == CHOOSE k \in DOMAIN tr.items : tr.items[k].kind = "full" /\ tr.items[k].case = c
                         /\ \A j \in 1..(k-1) : ~(tr.items[j].kind = "full" /\ tr.items[j].case = c)
 CasesCited(tr) == {tr.items[k].case : k \in {j \in DOMAIN tr.items : tr.items[j].kind = "full"}}
-Clauses == {"C04.noraise", "C05.onepercase", "C05.unambiguous", "C05.leftout"}
+ClauseSeq == <<"C04.noraise", "C05.onepercase", "C05.unambiguous", "C05.leftout">>
+Clauses == {ClauseSeq[ci] : ci \in DOMAIN ClauseSeq}
+ASSUME PrintT(<<"CLAUSES", ToJson(ClauseSeq)>>)
 Holds(cl, t) ==
   LET tr == T(t) IN
   IF tr.raised # "" THEN cl # "C04.noraise"
@@ -32,7 +34,16 @@ Holds(cl, t) ==
 TInit == tid = 0 /\ bucket \in 0..(NB - 1)
 TNext == tid = 0 /\ (\E t \in {x \in 1..NT : x % NB = bucket} : tid' = t) /\ UNCHANGED bucket
 TSpec == TInit /\ [][TNext]_<<tid, bucket>>
-Judge == tid # 0 => \A cl \in Clauses : Holds(cl, tid) \/ PrintT(<<"FAIL", tid, cl>>)
+Exercised(cl, t) ==
+  LET tr == T(t) IN
+  IF cl = "C04.noraise" THEN TRUE
+  ELSE IF tr.raised # "" \/ ~AllExtracted(tr) THEN FALSE
+  ELSE CASE cl = "C05.onepercase" -> Cardinality(CasesCited(tr)) >= 2
+    [] cl = "C05.unambiguous" -> \E k \in DOMAIN tr.items : tr.items[k].unamb /\ tr.items[k].kind # "full"
+    [] cl = "C05.leftout" -> \E k \in DOMAIN tr.items : tr.items[k].out
+    [] OTHER -> FALSE
+Judge == tid # 0 => (/\ \A cl \in Clauses : Holds(cl, tid) \/ PrintT(<<"FAIL", tid, cl>>)
+   /\ PrintT(<<"HIT", tid, Mask([ci \in DOMAIN ClauseSeq |-> Exercised(ClauseSeq[ci], tid)])>>))
 NotJudged == (tid # 0 /\ T(tid).raised = "" /\ ~AllExtracted(T(tid))) => PrintT(<<"DRIFT", tid>>)
 Done == tid # 0 => PrintT(<<"DONE", tid>>)
 =============================================================================
